@@ -8,6 +8,107 @@ import PV.C15.Lemmas
 namespace PV.C15
 open Spec
 
+/-! ### The reference line split really is a partition of the text -/
+
+theorem splitLines_flatten (bs : List Nat) : (splitLines bs).flatten = bs := splitLines_flatten_aux bs
+
+theorem indexLines_partition (bs : List Nat) : (indexLines bs).flatten = bs := indexLines_flatten bs
+
+/-! ### LineIndex -/
+
+/-- `LineIndex::from_source_text`: the table of line starts is the running sum of the lengths of the
+    reference lines (CR, LF and CR LF each ending a line once), for texts of every length. -/
+theorem lineStarts_spec (bs : List Nat) : lineStarts bs = startsFrom 0 (indexLines bs) :=
+  lineStarts_spec_aux bs
+
+/-- the number of lines equals the number of line breaks plus one -/
+theorem lineCount_eq_breaks_succ (bs : List Nat) : lineCount bs = breaks bs + 1 := lineCount_aux bs
+
+theorem lineIndex_spec (bs : List Nat) (off : Nat) :
+    lineIndex bs off = rowOf (lineStarts bs) off := by
+  unfold lineIndex rowOf
+  rw [binarySearch_count _ _ (lineStarts_sorted bs)]
+  cases h : binarySearch (lineStarts bs) off with
+  | mk f i => cases f <;> simp
+
+/-- meaning of `rowOf` on the line-start table: the row's line starts at or before the offset and
+    every later line starts after it — "the line whose span contains the offset". -/
+theorem rowOf_contains (bs : List Nat) (off : Nat) :
+    let starts := lineStarts bs
+    let r := rowOf starts off
+    r < starts.length ∧ (∀ s, starts[r]? = some s → s ≤ off) ∧
+    (∀ r' s', r < r' → starts[r']? = some s' → off < s') := by
+  intro starts r
+  have hs := lineStarts_sorted bs
+  have h0 : 0 < starts.countP (· ≤ off) := by
+    have := (sorted_count_iff starts off hs 0 (by simp [starts, lineStarts])).mpr (by simp [starts, lineStarts])
+    exact this
+  have hle : starts.countP (· ≤ off) ≤ starts.length := List.countP_le_length
+  refine ⟨by simp only [r, rowOf]; omega, ?_, ?_⟩
+  · intro s hsome
+    have hr : r < starts.length := by simp only [r, rowOf]; omega
+    have := (sorted_count_iff starts off hs r hr).mp (by simp only [r, rowOf]; omega)
+    rw [List.getElem?_eq_getElem hr] at hsome
+    cases hsome; exact this
+  · intro r' s' hlt hsome
+    have hr' : r' < starts.length := by
+      rcases Nat.lt_or_ge r' starts.length with h | h
+      · exact h
+      · rw [List.getElem?_eq_none h] at hsome; cases hsome
+    have hiff := sorted_count_iff starts off hs r' hr'
+    have hnot : ¬ r' < starts.countP (· ≤ off) := by simp only [r, rowOf] at hlt; omega
+    rw [List.getElem?_eq_getElem hr'] at hsome
+    cases hsome
+    have : ¬ starts[r'] ≤ off := fun h => hnot (hiff.mpr h)
+    omega
+
+/-- `source_location` reports the same row as `line_index` -/
+theorem sourceLocation_row (bs : List Nat) (off r c : Nat) (h : sourceLocation bs off = some (r, c)) :
+    r = rowOf (lineStarts bs) off := by
+  rw [← lineIndex_spec]; exact sourceLocation_row' bs off r c h
+
+/-- the column is the number of characters between the start of that row (a BOM at the start of the
+    file skipped) and the offset -/
+theorem sourceLocation_column (bs : List Nat) (off r c : Nat) (hoff : off ≤ bs.length)
+    (h : sourceLocation bs off = some (r, c)) :
+    ∃ ls, (lineStarts bs)[r]? = some ls ∧ c = charCount (segment bs ls off) :=
+  sourceLocation_column' bs off r c hoff h
+
+example : sourceLocation [0xEF, 0xBB, 0xBF, 0xC3, 0xA9, 13, 10, 97] 5 = some (0, 1) := by decide
+example : lineStarts [97, 13, 10, 98, 13, 99] = [0, 3, 5] := by decide
+
+/-! ### UniversalNewlineIterator -/
+
+/-- `next` yields the first reference line and leaves exactly the remaining lines -/
+theorem next_spec (it : Iter) (hne : it.text ≠ []) :
+    ∃ l rest, splitLines it.text = l :: rest ∧ splitLines rest.flatten = rest ∧
+      it.next.1 = some ⟨l, it.offset⟩ ∧ it.next.2.text = rest.flatten ∧
+      (rest ≠ [] → it.next.2.offset = it.offset + l.length) ∧
+      it.next.2.offsetBack = it.offsetBack := next_spec_aux it hne
+
+/-- `next_back` yields the last reference line and leaves exactly the preceding lines -/
+theorem nextBack_spec (it : Iter) (hne : it.text ≠ []) :
+    ∃ init l, splitLines it.text = init ++ [l] ∧ splitLines init.flatten = init ∧
+      it.nextBack.1 = some ⟨l, it.offsetBack - l.length⟩ ∧ it.nextBack.2.text = init.flatten ∧
+      it.nextBack.2.offset = it.offset ∧
+      (init ≠ [] → it.nextBack.2.offsetBack = it.offsetBack - l.length) := nextBack_spec_aux it hne
+
+/-- For EVERY interleaving of `next` / `next_back` calls (including calls after exhaustion) the
+    iterator behaves as a double-ended queue over the reference lines with their true offsets. -/
+theorem iter_any_interleaving (t : List Nat) (k : Nat) (ops : List Bool) :
+    ((Iter.withOffset t k).run ops).map (fun p => (p.1, p.2.map Line.toPair))
+      = runDeque (splitLines t) k ops :=
+  run_deque ops _ _ _ ⟨rfl, fun _ => ⟨rfl, rfl⟩⟩
+
+/-- `Line::as_str` removes exactly the terminator -/
+theorem asStr_spec (body term : List Nat) (o : Nat) (hb : ∀ x ∈ body, isNl x = false)
+    (ht : term = [] ∨ term = [10] ∨ term = [13] ∨ term = [13, 10]) :
+    Line.asStr ⟨body ++ term, o⟩ = body := asStr_spec' body term o hb ht
+
+example : ((Iter.withOffset [97, 13, 10, 98] 7).run [false, true, true]).map
+    (fun p => (p.1, p.2.map Line.toPair)) =
+    [(false, some ([98], 10)), (true, some ([97, 13, 10], 7)), (true, none)] := by decide
+
 /-! ### Range algebra agrees with reading a range as the set `{x | start ≤ x < stop}` -/
 
 theorem contains_iff_mem (r : Range) (x : Nat) : r.contains x = true ↔ mem r.start r.stop x := by
